@@ -928,7 +928,7 @@ def hunt_f3(check, runs=40):
 # finding F8: deadlock with many spurious candidates (rejected candidate at the minimum
 # of emit_q while out_slots <= EMIT_THRESH)
 # ---------------------------------------------------------------------------
-def gen_magic_bitmaps(rng, nstreams=600):
+def gen_magic_bitmaps(rng, nstreams=2000):
     """Valid concatenated streams whose symbol bitmaps contain the 48-bit block magic
     (rows 0x3141 0x5926 0x5359): one spurious candidate per block."""
     import bz2
@@ -948,7 +948,7 @@ def gen_magic_bitmaps(rng, nstreams=600):
     return Crafted("magicmap-%d" % nstreams, bytes(comp), bytes(plain), True, "magicmap")
 
 
-def hunt_deadlock(check, attempts=6, nstreams=600):
+def hunt_deadlock(check, attempts=8, nstreams=2000):
     """Bounded attempts to observe the hang; absence is not an error."""
     from concurrent.futures import ThreadPoolExecutor
     exe = vlib.build_lbzip2("rel")
@@ -1038,7 +1038,7 @@ def direct_x(check, leaks=False):
     check.notes.append("direct_x: peak live heap by worker count (decompression): %s" % peaks)
     if leaks:
         viols += hunt_f3(check, runs=24 if check.tier == "quick" else 100)
-    viols += hunt_deadlock(check, attempts=6 if check.tier == "quick" else 24)
+    viols += hunt_deadlock(check, attempts=8 if check.tier == "quick" else 32)
     return viols
 
 
